@@ -403,6 +403,137 @@ wide_int!(wi_i32, i32, true);
 wide_int!(wi_i64, i64, true);
 wide_int!(wi_isize, isize, true);
 
+
+// ---- long lists: Sum and Product are the left fold however many items there are ----------------------------------
+
+macro_rules! long_folds {
+    ($fname:ident, $F:ty) => {
+        fn $fname(d: &mut Draw) -> Outcome {
+            type F = $F;
+            // list length: short, around typical block sizes (16, 32, 64, 128, 256), or anywhere up to 600
+            let len = match d.int(0, 3) {
+                0 => d.int(0, 12),
+                1 => d.pick(&[16i64, 32, 64, 128, 256]) + d.int(-2, 3),
+                _ => d.int(13, 600),
+            } as usize;
+            // a few drawn values, repeated cyclically with exact sign / power-of-two changes: sums of wildly different
+            // magnitudes, where any regrouping of the additions changes the rounded result
+            let nb = d.int(1, 5) as usize;
+            let base: Vec<F> = (0..nb * 4)
+                .map(|_| match d.int(0, 4) {
+                    0 => (2.0 as F).powi(d.int(20, 60) as i32) * if d.bool() { 1.0 } else { -1.0 },
+                    1 => 0.0,
+                    2 => 1.0,
+                    _ => d.f64_slog(1e-3, 1e3) as F,
+                })
+                .collect();
+            d.note("list length, base values", &(len, base.clone()));
+            let el = |j: usize, k: usize| -> F {
+                let f: F = [1.0, -1.0, 0.5, 1.0, -0.25, 2.0, 1.0][(j / nb) % 7];
+                base[(j % nb) * 4 + k] * f
+            };
+            macro_rules! sums {
+                ($T:ty, $mk:expr, $sig:expr) => {{
+                    let list: Vec<$T> = (0..len).map(|j| $mk(j)).collect();
+                    let mut fold = <$T>::zero();
+                    for x in &list {
+                        fold = fold + *x;
+                    }
+                    let sv: $T = list.iter().cloned().sum();
+                    let sr: $T = list.iter().sum();
+                    same!(fold, sv, concat!($sig, "-sum-values"), "{} Sum over {} values", stringify!($T), len);
+                    same!(fold, sr, concat!($sig, "-sum-refs"), "{} Sum over {} references", stringify!($T), len);
+                }};
+            }
+            sums!(Vector1<F>, |j| Vector1::new(el(j, 0)), "long-vector1");
+            sums!(Vector2<F>, |j| Vector2::new(el(j, 0), el(j, 1)), "long-vector2");
+            sums!(Vector3<F>, |j| Vector3::new(el(j, 0), el(j, 1), el(j, 2)), "long-vector3");
+            sums!(Vector4<F>, |j| Vector4::new(el(j, 0), el(j, 1), el(j, 2), el(j, 3)), "long-vector4");
+            sums!(Quaternion<F>, |j| Quaternion::new(el(j, 0), el(j, 1), el(j, 2), el(j, 3)), "long-quaternion");
+            sums!(Rad<F>, |j| Rad(el(j, 0)), "long-rad");
+            sums!(Deg<F>, |j| Deg(el(j, 1)), "long-deg");
+            sums!(Matrix2<F>, |j| Matrix2::new(el(j, 0), el(j, 1), el(j, 2), el(j, 3)), "long-matrix2");
+            sums!(Matrix3<F>, |j| Matrix3::new(el(j, 0), el(j, 1), el(j, 2), el(j, 3), el(j, 0), el(j, 2), el(j, 1), el(j, 3), el(j, 0)), "long-matrix3");
+            sums!(Matrix4<F>, |j| Matrix4::from_cols(Vector4::new(el(j, 0), el(j, 1), el(j, 2), el(j, 3)), Vector4::new(el(j, 3), el(j, 2), el(j, 1), el(j, 0)), Vector4::new(el(j, 1), el(j, 0), el(j, 3), el(j, 2)), Vector4::new(el(j, 2), el(j, 3), el(j, 0), el(j, 1))), "long-matrix4");
+            // products of many factors: rotations (so that nothing overflows), by a few drawn angles
+            let angs: Vec<F> = (0..nb).map(|_| d.f64_in(-3.0, 3.0) as F).collect();
+            macro_rules! prods {
+                ($T:ty, $mk:expr, $sig:expr) => {{
+                    let list: Vec<$T> = (0..len).map(|j| $mk(j)).collect();
+                    let mut fold = <$T>::one();
+                    for x in &list {
+                        fold = fold * *x;
+                    }
+                    let pv: $T = list.iter().cloned().product();
+                    let pr: $T = list.iter().product();
+                    same!(fold, pv, concat!($sig, "-product-values"), "{} Product over {} values", stringify!($T), len);
+                    same!(fold, pr, concat!($sig, "-product-refs"), "{} Product over {} references", stringify!($T), len);
+                }};
+            }
+            let ang = |j: usize| Rad(angs[j % nb] * [1.0 as F, -0.5, 0.25][(j / nb) % 3]);
+            prods!(Quaternion<F>, |j| match j % 3 { 0 => Quaternion::from_angle_x(ang(j)), 1 => Quaternion::from_angle_y(ang(j)), _ => Quaternion::from_angle_z(ang(j)) }, "long-quaternion");
+            prods!(Matrix2<F>, |j| Matrix2::from_angle(ang(j)), "long-matrix2");
+            prods!(Matrix3<F>, |j| match j % 3 { 0 => Matrix3::from_angle_x(ang(j)), 1 => Matrix3::from_angle_y(ang(j)), _ => Matrix3::from_angle_z(ang(j)) }, "long-matrix3");
+            prods!(Matrix4<F>, |j| match j % 3 { 0 => Matrix4::from_angle_x(ang(j)), 1 => Matrix4::from_angle_y(ang(j)), _ => Matrix4::from_translation(Vector3::new(el(j, 0), 1.0, -2.0) * (1e-3 as F)) }, "long-matrix4");
+            prods!(Basis2<F>, |j| Rotation2::from_angle(ang(j)), "long-basis2");
+            prods!(Basis3<F>, |j| match j % 3 { 0 => cgmath::Rotation3::from_angle_x(ang(j)), 1 => cgmath::Rotation3::from_angle_y(ang(j)), _ => cgmath::Rotation3::from_angle_z(ang(j)) }, "long-basis3");
+            pass(if len <= 12 { "short" } else if len <= 128 { "up-to-128" } else { "longer-than-128" }, len >= 2)
+        }
+    };
+}
+long_folds!(long_folds_f32, f32);
+long_folds!(long_folds_f64, f64);
+
+/// integer vectors: the outcome (value, or the overflow panic of this build) of Sum over a long list is that of the left fold
+macro_rules! long_int_folds {
+    ($fname:ident, $S:ty) => {
+        fn $fname(d: &mut Draw) -> Outcome {
+            let len = match d.int(0, 2) {
+                0 => d.int(0, 12),
+                1 => d.pick(&[16i64, 32, 64, 128, 256]) + d.int(-2, 3),
+                _ => d.int(13, 400),
+            } as usize;
+            // mostly zeros and small values, a few large ones of either sign: partial sums cross the type's range or not
+            // depending on the order in which the additions are done
+            let big: Vec<$S> = (0..4).map(|_| (<$S>::MAX / 2 + (d.int(0, 40) as $S)) as $S).collect();
+            let pattern: Vec<u8> = (0..16).map(|_| d.int(0, 9) as u8).collect();
+            d.note("length, large values, pattern", &(len, big.clone(), pattern.clone()));
+            let neg = |x: $S| (0 as $S).wrapping_sub(x);
+            let signed = <$S>::MIN != 0;
+            let el = |j: usize| -> $S {
+                match pattern[j % 16] {
+                    0 => big[j % 4],
+                    1 if signed => neg(big[(j + 1) % 4]),
+                    2 => (j % 7) as $S,
+                    3 if signed => neg((j % 5) as $S),
+                    _ => 0,
+                }
+            };
+            let list: Vec<Vector2<$S>> = (0..len).map(|j| Vector2::new(el(j), el(j + 3))).collect();
+            let l2 = list.clone();
+            let want = outcome(move || {
+                let mut f = Vector2::<$S>::zero();
+                for x in &l2 {
+                    f = f + *x;
+                }
+                f
+            });
+            let l2 = list.clone();
+            let gv = outcome(move || l2.iter().cloned().sum::<Vector2<$S>>());
+            let l2 = list.clone();
+            let gr = outcome(move || l2.iter().sum::<Vector2<$S>>());
+            if gv != want || gr != want {
+                return Outcome::Fail { sig: "long-int-sum-outcome", msg: format!("Sum over {} Vector2<{}>: by value {:?}, by reference {:?}, left fold {:?} (None = overflow panic)", len, stringify!($S), gv, gr, want) };
+            }
+            pass(if want.is_none() { "fold-overflows" } else if len > 128 { "long-no-overflow" } else { "short-no-overflow" }, len >= 2)
+        }
+    };
+}
+long_int_folds!(long_int_folds_i8, i8);
+long_int_folds!(long_int_folds_i32, i32);
+long_int_folds!(long_int_folds_u8, u8);
+long_int_folds!(long_int_folds_u64, u64);
+
 // ---- float-only compound types: matrices, quaternions, angles, bases ------------------------------------------
 
 macro_rules! matrix_forms {
@@ -793,6 +924,13 @@ pub fn property() -> Property {
     wi!(wi_i32, "i32");
     wi!(wi_i64, "i64");
     wi!(wi_isize, "isize");
+    const RL: &str = "lists of at least two items; lengths 0..12, around 16/32/64/128/256, and anywhere up to 600";
+    add!("long_folds-f32", "f32", long_folds_f32, 300, 20_000, 128, &[("up-to-128", 200), ("longer-than-128", 200)], RL);
+    add!("long_folds-f64", "f64", long_folds_f64, 300, 20_000, 128, &[("up-to-128", 200), ("longer-than-128", 200)], RL);
+    add!("long_int_folds-i8", "i8", long_int_folds_i8, 600, 40_000, 48, &[("fold-overflows", 100), ("long-no-overflow", 10)], RL);
+    add!("long_int_folds-i32", "i32", long_int_folds_i32, 600, 40_000, 48, &[("fold-overflows", 100), ("long-no-overflow", 30)], RL);
+    add!("long_int_folds-u8", "u8", long_int_folds_u8, 600, 40_000, 48, &[("fold-overflows", 100)], RL);
+    add!("long_int_folds-u64", "u64", long_int_folds_u64, 600, 40_000, 48, &[("fold-overflows", 100)], RL);
     sl!(sl_u8, "u8");
     sl!(sl_u16, "u16");
     sl!(sl_u32, "u32");
